@@ -74,21 +74,19 @@ Fixpoint parse_expr (fuel : nat) (inf : bool) (prec : Z) (ts : list token) {stru
                   parse_suffix f inf (EGroup x) prec primary r'
                 else
                   (* parseParenthesizedExpression(prec, nil) *)
-                  '(args, r) <~ parse_cover f rest [] ;;
-                  match r with
-                  | a :: _ => if ty a =? tt_ArrowToken then OutFrag else
-                      match args with
-                      | [] => Fail                       (* "expected =>" *)
-                      | [x] => parse_suffix f inf (EGroup x) prec primary r
-                      | _ => parse_suffix f inf (EGroup (EComma args)) prec primary r
-                      end
-                  | [] =>
-                      match args with
-                      | [] => Fail
-                      | [x] => parse_suffix f inf (EGroup x) prec primary r
-                      | _ => parse_suffix f inf (EGroup (EComma args)) prec primary r
-                      end
-                  end
+                  '(args, tc, r) <~ parse_cover f rest [] false ;;
+                  if (match r with a :: _ => ty a =? tt_ArrowToken | [] => false end) then OutFrag   (* arrow function *)
+                  else
+                    match args with
+                    | [] => Fail                         (* "expected =>" *)
+                    | _ =>
+                      if tc then Fail                    (* `!isAsync && (0 < rests || trailingComma)` *)
+                      else
+                        match args with
+                        | [x] => parse_suffix f inf (EGroup x) prec primary r
+                        | _ => parse_suffix f inf (EGroup (EComma args)) prec primary r
+                        end
+                    end
             | _ => OutFrag
             end
           else OutFrag
@@ -217,25 +215,27 @@ with parse_args (fuel : nat) (ts : list token) (acc : list expr) {struct fuel} :
     end
   end
 
-(* the argument loop of parseParenthesizedExpression after its '(' up to and including ')'.
+(* the argument loop of parseParenthesizedExpression after its '(' up to and including ')'; tc is the trailingComma
+   flag (`trailingComma = p.tt == CloseParenToken` after each consumed comma).
    parseAssignExprOrParam: with assumeArrowFunc set, an identifier is declared as a parameter and continued by
    parseExpressionSuffix(left, OpAssign, OpPrimary); otherwise parseExpression(OpAssign) — which for an
    identifier builds the same Var and enters the same loop, so both are [parse_expr OpAssign] here. *)
-with parse_cover (fuel : nat) (ts : list token) (acc : list expr) {struct fuel} : res (list expr * list token) :=
+with parse_cover (fuel : nat) (ts : list token) (acc : list expr) (tc : bool) {struct fuel} : res (list expr * bool * list token) :=
   match fuel with
   | O => NoFuel
   | S f =>
     match ts with
     | [] => Fail
     | k :: r =>
-      if ty k =? tt_CloseParenToken then Ok (rev acc, r)
+      if ty k =? tt_CloseParenToken then Ok (rev acc, tc, r)
       else if ty k =? tt_EllipsisToken then OutFrag
       else '(a, r1) <~ parse_expr f true prec_OpAssign ts ;;
            match r1 with
            | [] => Fail
            | c :: r2 =>
-               if ty c =? tt_CommaToken then parse_cover f r2 (a :: acc)
-               else if ty c =? tt_CloseParenToken then Ok (rev (a :: acc), r2)
+               if ty c =? tt_CommaToken then
+                 parse_cover f r2 (a :: acc) (match r2 with k2 :: _ => ty k2 =? tt_CloseParenToken | [] => false end)
+               else if ty c =? tt_CloseParenToken then Ok (rev (a :: acc), false, r2)
                else Fail
            end
     end
